@@ -132,6 +132,11 @@ pub fn guard<T>(f: impl FnOnce() -> T) -> Result<T, String> {
     }
 }
 
+/// class names that are recorded but do not count as non-trivial
+pub fn is_trivial_class(c: &str) -> bool {
+    matches!(c, "" | "identity operand" | "identity" | "nothing to do" | "identical" | "different")
+}
+
 pub struct SplitMix(pub u64);
 impl SplitMix {
     pub fn next(&mut self) -> u64 {
@@ -162,6 +167,11 @@ impl Ctx {
             start: Instant::now(),
             threads,
             inner: Mutex::new(Inner::default()),
+        }
+    }
+    pub fn trace(&self, msg: &str) {
+        if std::env::var("VERIF_DEBUG").is_ok() {
+            eprintln!("[{:8.2}s] {}", self.start.elapsed().as_secs_f64(), msg);
         }
     }
     pub fn quick(&self) -> bool {
@@ -260,6 +270,7 @@ impl Ctx {
         if !self.selected(sub) {
             return;
         }
+        self.trace(&format!("sweep {} n={}", sub, n));
         if let Some(i) = self.replay_index(sub) {
             if i < n {
                 self.run_one(sub, i, &describe, &f);
@@ -293,7 +304,9 @@ impl Ctx {
                             match panic::catch_unwind(AssertUnwindSafe(|| f(i))) {
                                 Ok(Ok(class)) => {
                                     if !class.is_empty() {
-                                        l.nontrivial += 1;
+                                        if !is_trivial_class(class) {
+                                            l.nontrivial += 1;
+                                        }
                                         *l.classes.entry(class).or_insert(0) += 1;
                                     }
                                 }
